@@ -88,6 +88,7 @@ def gen_repo_world(t, family):
     w.recursive = t.chance(1, 2, "recursive-glob") and family != "rrel"  # a grammar RREL takes no glob arguments
     # the root directory may be a symbolic link: every path of the world keeps the link spelling, os.path.realpath()
     # would give another spelling of the same files - one file is still one model
+    w.declare_source = t.chance(1, 3, "a-parameter-called-source-is-declared")
     w.symlinked = t.chance(1, 5, "root-directory-is-a-symlink")
     if w.symlinked:
         SIMFS.aliases = [(ROOT, "/sim/real-w4")]
@@ -407,6 +408,10 @@ class Sys:
         self.mm.model_param_defs.add("p1", "first parameter")
         self.mm.model_param_defs.add("p2", "second parameter")
         self.declared = {"p1", "p2", "project_root"}
+        if getattr(w, "declare_source", False):
+            # any name may be declared - also one that textX uses for an argument of its own helper functions
+            self.mm.model_param_defs.add("source", "where the model comes from")
+            self.declared.add("source")
         base = None
         if getattr(w, "inner_plan", None) and fam in ("plainuri", "fqnuri", "plainuri-sp", "fqnuri-sp"):
             inner = InnerPostponer(sp.PlainName() if fam in PLAIN else sp.FQN(), w, ctx)
@@ -671,6 +676,8 @@ def run(ctx):
                 params["p2"] = t.pick([None, "b", 7], "p2v")
             if "p3" in sysm.declared and t.chance(2, 3, "p3"):
                 params["p3"] = t.pick(["late", 0], "p3v")
+            if "source" in sysm.declared and t.chance(1, 2, "source"):
+                params["source"] = t.pick(["editor", "batch"], "sourcev")
         opk = t.draw(6, "op")  # 0-2 load, 3 undeclared, 4-5 corrupt cycle
         if prop == "C17":
             opk = min(opk, 2) if not t.chance(1, 8, "c17-other-op") else opk
@@ -825,7 +832,7 @@ def op_load(ctx, prop, sysm, w, F, params, cache, famtag, global_repo, as_str, s
 
 def op_undeclared(ctx, sysm, w, F, params, cache, famtag, t):
     bad = dict(params)
-    bad[t.pick([n for n in ["p3", "P1", "project_roots", "debug_"] if n not in sysm.declared], "bad-name")] = 1
+    bad[t.pick([n for n in ["p3", "P1", "project_roots", "debug_", "source"] if n not in sysm.declared], "bad-name")] = 1
     sysm.opens.clear()
     am = sysm.all_models()
     before = list(am) if am is not None else None
